@@ -231,6 +231,82 @@ def expected_enclose(cfg, v, md, air, numeric_only=True):
     return ("{%s}" if d == "{" else '"%s"') % (v,)
 
 
+class _Tok:
+    def __init__(self, n):
+        self.n = n
+
+    def __repr__(self):
+        return self.n
+
+
+UNSPEC, ABSENT = _Tok("<unspecified>"), _Tok("<absent>")
+
+
+def ref_steps(spec, steps, cfg, strings_air):
+    """The remove / add steps on one block spec through the property statement.  Returns (values, recorded metadata) with
+    UNSPEC where the property does not say (non-str values, foreign metadata), or None for blocks without values."""
+    if spec["t"] == "entry":
+        keys = [f[0] for f in spec["fields"]]
+        vals = [unjv_plain(f[1]) for f in spec["fields"]]
+    elif spec["t"] == "string":
+        keys, vals = [None], [unjv_plain(spec["value"])]
+    else:
+        return None
+    md = ABSENT
+    for k, v in spec.get("meta", []):
+        if k == "removed_enclosing":
+            md = unjv_plain(v)
+    for st in steps:
+        if st == "r":
+            if any(not isinstance(v, str) for v in vals):
+                return None                              # .strip() on a non-str / unspecified value: not the property's business
+            rec = {}
+            out = []
+            for k, v in zip(keys, vals):
+                sv = v.strip()
+                op = outer_pair(sv)
+                out.append(op[1] if op else sv)
+                rec[k] = op[0] if op else "no-enclosing"
+            vals = out
+            md = rec if spec["t"] == "entry" else rec[None]
+        else:
+            if md is UNSPEC:
+                return None                              # a second add in a row: what the first left behind is not specified
+            m, md = (None if md is ABSENT else md), UNSPEC
+            out = []
+            for k, v in zip(keys, vals):
+                if spec["t"] == "entry":
+                    if m is None:
+                        prev = None
+                    elif isinstance(m, dict):
+                        prev = m.get(k, None)
+                    else:
+                        return None                      # foreign metadata object
+                    air = k in NUMERIC_FIELDS
+                else:
+                    prev, air = m, strings_air
+                if v is UNSPEC or isinstance(v, bool) or not isinstance(v, (str, int)) or not (prev is None or isinstance(prev, str)):
+                    out.append(UNSPEC)
+                    continue
+                e = expected_enclose(cfg, v, prev, air)
+                out.append(UNSPEC if e is None else e)
+            vals = out
+            if any(v is UNSPEC for v in vals) and st != steps[-1]:
+                return None
+    return vals, md
+
+
+def unjv_plain(v):
+    """value spec -> plain Python value for the reference (objects the property does not speak about -> UNSPEC)"""
+    if isinstance(v, dict):
+        if "int" in v:
+            return v["int"]
+        if "dict" in v:
+            return {k: unjv_plain(x) for k, x in v["dict"]}
+        return UNSPEC
+    return v
+
+
 def same(a, b):
     return type(a) is type(b) and a == b
 
@@ -468,7 +544,26 @@ def impl_shape(case):
     after = [(type(b).__name__, getattr(b, "key", None), b.start_line, b.raw,
               [(f.key, f.start_line) for f in getattr(b, "fields", [])]) for b in lib.blocks]
     ok = before == after
-    rec["oracle"] = {"ok": ok, "detail": "" if ok else "block classes / keys / lines / raw / field keys changed: %r -> %r" % (before, after)}
+    detail = "" if ok else "block classes / keys / lines / raw / field keys changed: %r -> %r" % (before, after)
+    if ok:
+        # the same steps through the property statement (outer_pair / expected_enclose), block by block
+        import bibtexparser.middlewares.enclosing as E
+        for spec, b in zip(inp["lib"], lib.blocks):
+            exp = ref_steps(spec, steps, cfg, getattr(E, "STRINGS_CAN_BE_UNESCAPED_INTS", False))
+            if exp is None or type(b).__name__ != {"entry": "Entry", "string": "String"}[spec["t"]]:
+                continue
+            vals, md = exp
+            got = [f.value for f in b.fields] if spec["t"] == "entry" else [b.value]
+            for i, (e, g) in enumerate(zip(vals, got)):
+                if e is not UNSPEC and not same(e, g):
+                    ok, detail = False, ("%s %r value %d through steps %r (options %r): got %r, the property gives %r" %
+                                         (spec["t"], spec["key"], i, steps, cfg, g, e))
+            if md is not UNSPEC and ok:
+                gm = b.parser_metadata.get("removed_enclosing", ABSENT)
+                if not (gm is md or (type(gm) is type(md) and gm == md)):
+                    ok, detail = False, ("%s %r after steps %r: recorded enclosing %r, the values that were stripped give %r" %
+                                         (spec["t"], spec["key"], steps, gm, md))
+    rec["oracle"] = {"ok": ok, "detail": detail}
     rec["tags"] = ["shape:ok"]
     rec["summary"] = repr(after)[:200]
     return rec
